@@ -210,7 +210,7 @@ pub fn step_task(shared: &Sh, id: usize) {
     };
     let waker = Waker::from(Arc::new(TaskWaker { id, shared: shared.clone() }));
     let mut cx = Context::from_waker(&waker);
-    let r = std::panic::catch_unwind(std::panic::AssertUnwindSafe(|| poller(&mut cx)));
+    let r = std::panic::catch_unwind(std::panic::AssertUnwindSafe(|| tokio::verif_hook::with_budget(|| poller(&mut cx))));
     let mut s = shared.lock().unwrap();
     let t = &mut s.tasks[id];
     t.polling = false;
